@@ -54,7 +54,7 @@ func arrayRepEngine(raw json.RawMessage, _ []string) (any, error) {
 			list, ix = expand.VerifSetIndexedElem(list, ix, max+1, e.Args[0].(string))
 		case "unset":
 			list, ix = expand.VerifDeleteIndexedElem(list, ix, int(e.Args[0].(float64)))
-		case "clear", "assign2":
+		case "clear", "assign2", "appendstr":
 			// no helper involved; covered at the shell level
 			return map[string]any{"skip": true}, nil
 		default:
